@@ -36,10 +36,19 @@ type Config struct {
 	First0       int64  `json:"first_amount0"`       // the first position sets the price
 	First1       int64  `json:"first_amount1"`
 	RangeUnit    int64  `json:"range_unit"` // in ticks; multiple of the spacing
+	// Exp10 is the amount scale of the scenario: every pool-token amount written as an int64 in a configuration, an
+	// operation, a seed or the probe set stands for that many times 10^Exp10 base units (0: the 6-decimal-scale
+	// scenario as it always was; 18: 18-decimal tokens, reserves of 1e24..1e30 base units). Amounts synthesised by
+	// the exact walker, the +-1 variations and balances read back from the chain are real base units and not scaled.
+	Exp10 int `json:"exp10,omitempty"`
 }
 
 func (c Config) String() string {
-	return fmt.Sprintf("ts=%d sf=%s scaled=%v first=(%d,%d) unit=%d", c.TickSpacing, c.SpreadFactor, c.Scaled, c.First0, c.First1, c.RangeUnit)
+	s := fmt.Sprintf("ts=%d sf=%s scaled=%v first=(%d,%d) unit=%d", c.TickSpacing, c.SpreadFactor, c.Scaled, c.First0, c.First1, c.RangeUnit)
+	if c.Exp10 != 0 {
+		s += fmt.Sprintf(" x1e%d", c.Exp10)
+	}
+	return s
 }
 
 // Op is one symbol of the CL alphabet.
@@ -48,12 +57,18 @@ type Op struct {
 	A string `json:"a,omitempty"` // account
 	P int    `json:"p,omitempty"` // index into the ledger's live positions (creation order)
 	R int    `json:"r,omitempty"` // range index
-	X int64  `json:"x,omitempty"` // amount0 / amount / numerator
+	X int64  `json:"x,omitempty"` // amount0 / amount / numerator (pool-token amounts: times 10^Config.Exp10)
 	Y int64  `json:"y,omitempty"` // amount1 / denominator
 	D int    `json:"d,omitempty"` // direction 0: token0 in, 1: token1 in ; dt index ; uptime index
+	// Raw, when set, is a swap amount in real base units (decimal) and replaces X: walker-synthesised amounts of
+	// configurations with Exp10 != 0 do not fit an int64 and must not be scaled
+	Raw string `json:"raw,omitempty"`
 }
 
 func (o Op) String() string {
+	if o.Raw != "" {
+		return fmt.Sprintf("%s{a=%s p=%d r=%d raw=%s y=%d d=%d}", o.K, o.A, o.P, o.R, o.Raw, o.Y, o.D)
+	}
 	return fmt.Sprintf("%s{a=%s p=%d r=%d x=%d y=%d d=%d}", o.K, o.A, o.P, o.R, o.X, o.Y, o.D)
 }
 
@@ -127,6 +142,35 @@ type World struct {
 	SF     osmomath.Dec
 	Ranges [][2]int64
 	Uptime []time.Duration
+	scale  *big.Int // 10^Cfg.Exp10
+}
+
+// amt converts a scenario amount (int64, in units of 10^Exp10 base units) to base units.
+func (w *World) amt(n int64) sdkmath.Int {
+	if w.Cfg.Exp10 == 0 {
+		return sdkmath.NewInt(n)
+	}
+	return sdkmath.NewIntFromBigInt(new(big.Int).Mul(big.NewInt(n), w.scale))
+}
+
+// amtBig is amt as a *big.Int.
+func (w *World) amtBig(n int64) *big.Int { return new(big.Int).Mul(big.NewInt(n), w.scale) }
+
+// swapAmt is the specified amount of a swap op in base units.
+func (w *World) swapAmt(op Op) sdkmath.Int {
+	if op.Raw != "" {
+		v, ok := new(big.Int).SetString(op.Raw, 10)
+		if !ok {
+			panic("bad raw amount " + op.Raw)
+		}
+		return sdkmath.NewIntFromBigInt(v)
+	}
+	return w.amt(op.X)
+}
+
+// maxIn is the "no limit" TokenInMaxAmount of exact-out swaps: 2^62 scenario units.
+func (w *World) maxIn() sdkmath.Int {
+	return sdkmath.NewIntFromBigInt(new(big.Int).Mul(new(big.Int).SetUint64(1<<62), w.scale))
 }
 
 // the middle step carries a fractional second (and one odd nanosecond): emission is rate x elapsed time with nanosecond resolution
@@ -138,10 +182,14 @@ func sdkInt(n int64) sdkmath.Int { return sdkmath.NewInt(n) }
 
 // NewWorld builds the app, the pool and the range table for a configuration.
 func NewWorld(cfg Config) *World {
-	fund := core.Coins(Denom0, "1000000000000000000000", Denom1, "1000000000000000000000", "uosmo", "100000000000", IncDen, "1000000000000000", incDenoms[0], "1000000000000000", incDenoms[1], "1000000000000000", incDenoms[2], "1000000000000000")
+	if cfg.Exp10 < 0 || cfg.Exp10 > 18 {
+		panic("Exp10 out of range")
+	}
+	zeros := strings.Repeat("0", cfg.Exp10) // the pool tokens are funded at the scenario's amount scale
+	fund := core.Coins(Denom0, "1000000000000000000000"+zeros, Denom1, "1000000000000000000000"+zeros, "uosmo", "100000000000", IncDen, "1000000000000000", incDenoms[0], "1000000000000000", incDenoms[1], "1000000000000000", incDenoms[2], "1000000000000000")
 	env := core.NewEnv(core.GenesisOpts{Balances: map[string]sdk.Coins{"A": fund, "B": fund, "C": fund, "T": fund, "I": fund}})
 	a, ctx := env.App, env.Ctx
-	w := &World{Env: env, App: a, Cfg: cfg, SF: osmomath.MustNewDecFromStr(cfg.SpreadFactor)}
+	w := &World{Env: env, App: a, Cfg: cfg, SF: osmomath.MustNewDecFromStr(cfg.SpreadFactor), scale: new(big.Int).Exp(big.NewInt(10), big.NewInt(int64(cfg.Exp10)), nil)}
 
 	p := cltypes.DefaultParams()
 	p.IsPermissionlessPoolCreationEnabled = true
@@ -243,13 +291,13 @@ func (w *World) pool(ctx sdk.Context) cltypes.ConcentratedPoolExtension {
 	return p
 }
 
-func coinsOf(a0, a1 int64) sdk.Coins {
+func (w *World) coinsOf(a0, a1 int64) sdk.Coins {
 	c := sdk.NewCoins()
 	if a0 > 0 {
-		c = c.Add(sdk.NewCoin(Denom0, sdkInt(a0)))
+		c = c.Add(sdk.NewCoin(Denom0, w.amt(a0)))
 	}
 	if a1 > 0 {
-		c = c.Add(sdk.NewCoin(Denom1, sdkInt(a1)))
+		c = c.Add(sdk.NewCoin(Denom1, w.amt(a1)))
 	}
 	return c
 }
@@ -284,7 +332,7 @@ func (w *World) Apply(ctx sdk.Context, l *Ledger, op Op, fail func(a, s, d strin
 	case "create":
 		rg := w.Ranges[op.R]
 		msg := &cltypes.MsgCreatePosition{PoolId: w.PoolID, Sender: core.Acc(op.A).String(), LowerTick: rg[0], UpperTick: rg[1],
-			TokensProvided: coinsOf(op.X, op.Y), TokenMinAmount0: sdkmath.ZeroInt(), TokenMinAmount1: sdkmath.ZeroInt()}
+			TokensProvided: w.coinsOf(op.X, op.Y), TokenMinAmount0: sdkmath.ZeroInt(), TokenMinAmount1: sdkmath.ZeroInt()}
 		before := bal(w, ctx, core.Acc(op.A))
 		r := core.Deliver(a, ctx, msg)
 		if !r.OK() {
@@ -301,7 +349,7 @@ func (w *World) Apply(ctx sdk.Context, l *Ledger, op Op, fail func(a, s, d strin
 		if !paid.AmountOf(Denom0).Equal(resp.Amount0) || !paid.AmountOf(Denom1).Equal(resp.Amount1) {
 			fail("create.response-matches-balance", "", fmt.Sprintf("response (%s,%s) but balance moved %s", resp.Amount0, resp.Amount1, paid))
 		}
-		if resp.Amount0.GT(sdkInt(op.X)) || resp.Amount1.GT(sdkInt(op.Y)) {
+		if resp.Amount0.GT(w.amt(op.X)) || resp.Amount1.GT(w.amt(op.Y)) {
 			// observed on the unchanged tree: liquidity is derived from the provided amounts with truncation and
 			// the charged amounts are re-derived rounding up, which can exceed the provided amount by one unit.
 			// No listed property forbids it; counted, not asserted.
@@ -312,7 +360,7 @@ func (w *World) Apply(ctx sdk.Context, l *Ledger, op Op, fail func(a, s, d strin
 			return ctx, "rejected:no-such-position"
 		}
 		p := l.Pos[op.P]
-		msg := &cltypes.MsgAddToPosition{PositionId: p.ID, Sender: core.Acc(p.Owner).String(), Amount0: sdkInt(op.X), Amount1: sdkInt(op.Y),
+		msg := &cltypes.MsgAddToPosition{PositionId: p.ID, Sender: core.Acc(p.Owner).String(), Amount0: w.amt(op.X), Amount1: w.amt(op.Y),
 			TokenMinAmount0: sdkmath.ZeroInt(), TokenMinAmount1: sdkmath.ZeroInt()}
 		inc0 := bal(w, ctx, core.Acc(p.Owner))
 		var csBefore sdk.Coins
@@ -430,12 +478,13 @@ func (w *World) Apply(ctx sdk.Context, l *Ledger, op Op, fail func(a, s, d strin
 		feeAcct := w.pool(ctx).GetSpreadRewardsAddress()
 		feeBefore := w.App.BankKeeper.GetBalance(ctx, feeAcct, in).Amount
 		var r core.MsgResult
+		spec := w.swapAmt(op)
 		if op.K == "swapin" {
 			r = core.Deliver(a, ctx, &pmtypes.MsgSwapExactAmountIn{Sender: t.String(), Routes: []pmtypes.SwapAmountInRoute{{PoolId: w.PoolID, TokenOutDenom: out}},
-				TokenIn: sdk.NewCoin(in, sdkInt(op.X)), TokenOutMinAmount: sdkmath.OneInt()})
+				TokenIn: sdk.NewCoin(in, spec), TokenOutMinAmount: sdkmath.OneInt()})
 		} else {
 			r = core.Deliver(a, ctx, &pmtypes.MsgSwapExactAmountOut{Sender: t.String(), Routes: []pmtypes.SwapAmountOutRoute{{PoolId: w.PoolID, TokenInDenom: in}},
-				TokenOut: sdk.NewCoin(out, sdkInt(op.X)), TokenInMaxAmount: sdkmath.NewIntFromUint64(1 << 62)})
+				TokenOut: sdk.NewCoin(out, spec), TokenInMaxAmount: w.maxIn()})
 		}
 		if !r.OK() {
 			if os.Getenv("VERIF_DEBUG") != "" {
@@ -456,10 +505,10 @@ func (w *World) Apply(ctx sdk.Context, l *Ledger, op Op, fail func(a, s, d strin
 			if !resp.TokenOutAmount.Equal(recv) {
 				fail("swap.response-matches-balance", "", fmt.Sprintf("response out=%s, balance moved out=%s", resp.TokenOutAmount, recv))
 			}
-			if paid.GT(sdkInt(op.X)) {
-				fail("swap.charged-at-most-specified-input", "", fmt.Sprintf("specified in=%d, charged %s", op.X, paid))
+			if paid.GT(spec) {
+				fail("swap.charged-at-most-specified-input", "", fmt.Sprintf("specified in=%s, charged %s", spec, paid))
 			}
-			if paid.LT(sdkInt(op.X)) {
+			if paid.LT(spec) {
 				l.PartialFills++
 			}
 		} else {
@@ -468,10 +517,10 @@ func (w *World) Apply(ctx sdk.Context, l *Ledger, op Op, fail func(a, s, d strin
 			if !resp.TokenInAmount.Equal(paid) {
 				fail("swap.response-matches-balance", "", fmt.Sprintf("response in=%s, balance moved in=%s", resp.TokenInAmount, paid))
 			}
-			if recv.GT(sdkInt(op.X)) {
-				fail("swap.paid-out-at-most-specified-output", "", fmt.Sprintf("specified out=%d, paid out %s", op.X, recv))
+			if recv.GT(spec) {
+				fail("swap.paid-out-at-most-specified-output", "", fmt.Sprintf("specified out=%s, paid out %s", spec, recv))
 			}
-			if recv.LT(sdkInt(op.X)) {
+			if recv.LT(spec) {
 				l.PartialFills++
 			}
 		}
@@ -669,6 +718,15 @@ func (w *World) Enabled(al *Alphabet) func(ctx sdk.Context, l *Ledger, depth int
 				for dir := 0; dir < 2; dir++ {
 					if in, _, ok := c.toNextTick(s0, dir == 0, ratDec(w.SF)); ok {
 						ci := ceilRat(in)
+						if w.Cfg.Exp10 != 0 {
+							// real base units: carried as Raw, never scaled
+							if ci.Sign() > 0 && ci.BitLen() < 60+w.scale.BitLen() {
+								x2 := new(big.Int).Add(ci, new(big.Int).Rsh(ci, 1))
+								x2.Add(x2, w.amtBig(1000))
+								ops = append(ops, Op{K: "swapin", D: dir, Raw: ci.String()}, Op{K: "swapin", D: dir, Raw: x2.String()})
+							}
+							continue
+						}
 						if ci.Sign() > 0 && ci.BitLen() < 60 {
 							x := ci.Int64()
 							ops = append(ops, Op{K: "swapin", D: dir, X: x}, Op{K: "swapin", D: dir, X: x + x/2 + 1000})
